@@ -13,6 +13,8 @@ import (
 	"github.com/mithrandie/csvq/lib/parser"
 	"github.com/mithrandie/csvq/lib/value"
 
+	"github.com/mithrandie/go-text"
+
 	"github.com/mithrandie/ternary"
 )
 
@@ -225,7 +227,12 @@ func (proc *Processor) ExecuteStatement(ctx context.Context, stmt parser.Stateme
 						}
 					} else if !proc.Tx.Flags.ExportOptions.StripEndingLineBreak &&
 						!(proc.Tx.Session.OutFile() != nil && exportOptions.Format == option.FIXED && exportOptions.SingleLine) {
-						_, err = writer.Write([]byte(proc.Tx.Flags.ExportOptions.LineBreak.Value()))
+						enc := exportOptions.Encoding
+						if exportOptions.Format == option.JSON || exportOptions.Format == option.JSONL {
+							// JSON is always written in UTF-8
+							enc = text.UTF8
+						}
+						err = writeLineBreakInEncoding(writer, exportOptions.LineBreak, enc)
 					}
 				}
 
